@@ -439,6 +439,13 @@ def level2(ctx, witnesses, load_case, case_json, lines, expect):
                    'case': case_json(sch, db, t) if w.get('term') is not None else None,
                    'db': case_json(sch, db, ('empty',))['db'], 'comment': w.get('comment'), 'level': 2})
 
+    # -- calls of the std functions with preserves_optionality / preserves_upper_cardinality (non-standard branch
+    #    of cardinality.__infer_func_call): every flagged function x every parameter x argument class
+    from lib import c06_funcs as FN
+    out['func_calls'] = FN.run(ctx, env, errors, gamma, has_dups)
+    out['oracle_checks'] += out['func_calls']['with_result']
+    out['oracle_failures'] += out['func_calls']['oracle_failures']
+
     # -- every FILTER x OFFSET x LIMIT combination in one SELECT (top level, operand, shape element)
     from edb.ir import ast as irast
 
@@ -691,12 +698,21 @@ def run(ctx: core.Ctx):
                            for k, vs in c['db']['ptrs'].items()}}
         return sch, db, untuple(c['term'])
 
+    replay_fn = []
     if ctx.replay:
         rp = json.load(open(ctx.replay))
         for f in rp['failures']:
             d = f.get('detail')
-            if isinstance(d, dict) and 'case' in d:
+            if isinstance(d, dict) and d.get('case'):
                 cases.append(('replay',) + load_case(d['case']))
+            if isinstance(d, dict) and d.get('func_call_query'):
+                replay_fn.append(d['func_call_query'])
+        if replay_fn:
+            from bridge import env as _env
+            _env.setup()
+            from edb import errors as _errors
+            from lib import c06_funcs as FN
+            ctx.log('replay func calls:', FN.run(ctx, _env, _errors, gamma, has_dups, only_queries=replay_fn))
     else:
         for w in witnesses:
             if w.get('term') is not None:
